@@ -1460,7 +1460,7 @@ class Memoer(Tymee):
                     vid = self.vids.get(mid.decode()) # if not then get from .vids
                     vid = vid.encode() if vid is not None else b""
             elif code in AckDex:
-                pass
+                gc = None  # not provided in ack gram
             else:
                 raise hioing.MemoerError(f"Invalid {code=}")
 
@@ -1498,7 +1498,7 @@ class Memoer(Tymee):
                     vid = self.vids.get(mid.decode()) # if not then get from .vids
                     vid = vid.encode() if vid is not None else b""
             elif code in AckDex:
-                pass
+                gc = None  # not provided in ack gram
             else:
                 raise hioing.MemoerError(f"Invalid {code=}")
 
